@@ -48,6 +48,7 @@ struct Args {
     scale: f64,
     only_stream: Option<String>,
     case_timeout_s: u64,
+    probe_case: Option<(String, u64)>,
 }
 
 fn parse_args() -> Args {
@@ -63,6 +64,7 @@ fn parse_args() -> Args {
         scale: 1.0,
         only_stream: None,
         case_timeout_s: 600,
+        probe_case: None,
     };
     let v: Vec<String> = std::env::args().skip(1).collect();
     let mut i = 0;
@@ -110,6 +112,12 @@ fn parse_args() -> Args {
                 a.only_stream = Some(need(i));
                 i += 1;
             }
+            "--probe-case" => {
+                let name = need(i);
+                let idx = v.get(i + 2).and_then(|x| x.parse().ok()).unwrap_or(0);
+                a.probe_case = Some((name, idx));
+                i += 2;
+            }
             "--case-timeout" => {
                 a.case_timeout_s = need(i).parse().unwrap_or(600);
                 i += 1;
@@ -144,6 +152,13 @@ fn main() {
 
     if let Some(path) = &args.replay {
         std::process::exit(replay(&spec, &args, path));
+    }
+    if let Some((name, idx)) = &args.probe_case {
+        // sacrificial child: perform the case's dangerous library calls and exit
+        let si = spec.streams.iter().position(|s| s.name == name).unwrap_or(0);
+        let mut rep = Report::default();
+        run_case(&spec, si, *idx, args.seed, args.thorough, false, true, &mut rep);
+        std::process::exit(0);
     }
 
     let t0 = Instant::now();
@@ -221,7 +236,7 @@ fn main() {
                     }
                     let (si, idx) = work[k];
                     *running[t].lock().unwrap() = Some((si, idx, Instant::now()));
-                    run_case(&spec, si, idx, seed, thorough, false, &mut rep);
+                    run_case(&spec, si, idx, seed, thorough, false, false, &mut rep);
                     *running[t].lock().unwrap() = None;
                 }
                 total.lock().unwrap().merge(rep);
@@ -244,7 +259,7 @@ fn main() {
     std::process::exit(finish(&spec, &args, rep, wall));
 }
 
-fn run_case(spec: &Spec, si: usize, idx: u64, seed: u64, thorough: bool, verbose: bool, rep: &mut Report) {
+fn run_case(spec: &Spec, si: usize, idx: u64, seed: u64, thorough: bool, verbose: bool, probe: bool, rep: &mut Report) {
     let s = &spec.streams[si];
     let mut ctx = Ctx {
         rng: rng::Rng::for_case(seed, spec.id, rng::hash_str(s.name), idx),
@@ -255,6 +270,10 @@ fn run_case(spec: &Spec, si: usize, idx: u64, seed: u64, thorough: bool, verbose
         verbose,
         case: Value::Null,
         family: s.name.to_string(),
+        seed,
+        prop: spec.id,
+        stream_name: s.name,
+        probe,
     };
     // A panic that escapes here comes from harness/oracle code (library calls are guarded
     // individually); it is a harness error => inconclusive, never a violation.
@@ -439,7 +458,7 @@ fn replay(spec: &Spec, args: &Args, path: &str) -> i32 {
     };
     println!("replaying {} stream={} index={} seed={} tier={}", spec.id, stream, index, seed, if thorough { "thorough" } else { "quick" });
     let mut rep = Report::default();
-    run_case(spec, si, index, seed, thorough, true, &mut rep);
+    run_case(spec, si, index, seed, thorough, true, false, &mut rep);
     let want = doc["signature"].as_str().unwrap_or("");
     let mut hit = false;
     for (sig, v) in &rep.violations {
